@@ -5,6 +5,8 @@
 (*                                                                         *)
 (*   HorizonStop        the loop condition t < horizon fails               *)
 (*   ZeroRatesStop      all rates are zero: stop, nothing recorded         *)
+(*   TLZeroFallback     (tau-leap mode) the tau-leap attempt sees all rates *)
+(*                      zero; the iteration falls back and then stops      *)
 (*   FRAccept(e, dt)    first reaction chose e (rate > 0) and x + V[:,e]   *)
 (*                      respects the limits: state and time advance        *)
 (*   FRRejectStop(e)    the chosen single reaction would leave the limits: *)
@@ -57,8 +59,15 @@ HorizonStop ==
     /\ pc' = "done" /\ why' = "horizon"
     /\ UNCHANGED <<x, t, path, run>>
 
+(* tau-leap mode: the tau-leap attempt finds all rates zero and reports failure; the same     *)
+(* iteration then retries with the first-reaction method, which stops the run (next action). *)
+TLZeroFallback ==
+    /\ pc = "run" /\ ~run.exact /\ t < run.horizon /\ ~AnyRate(x)
+    /\ pc' = "fallback" /\ why' = ""
+    /\ UNCHANGED <<x, t, path, run>>
+
 ZeroRatesStop ==
-    /\ pc \in {"run", "fallback"} /\ t < run.horizon /\ ~AnyRate(x)
+    /\ (pc = "fallback" \/ (pc = "run" /\ run.exact)) /\ t < run.horizon /\ ~AnyRate(x)
     /\ pc' = "done" /\ why' = "zero rates"
     /\ UNCHANGED <<x, t, path, run>>
 
@@ -92,7 +101,7 @@ TLRejectFallback(c) ==
 
 CountVecs == [Events -> 0..MaxCount]
 
-Next == \/ HorizonStop \/ ZeroRatesStop
+Next == \/ HorizonStop \/ ZeroRatesStop \/ TLZeroFallback
         \/ \E e \in Events : \E dt \in 1..MaxDt : FRAccept(e, dt)
         \/ \E e \in Events : FRRejectStop(e)
         \/ \E c \in CountVecs : \E tau \in 1..MaxDt : TLAccept(c, tau)
